@@ -16,7 +16,10 @@ M = [
  ("c12-modes-not-restored-on-error", "C12", "piquasso/api/simulator.py", "            finally:\n                # NOTE: The modes specified by the user are restored even if the\n                # execution of the instruction raises.\n                instruction._modes = original_modes", "            except ValueError:\n                instruction._modes = original_modes\n                raise\n            instruction._modes = original_modes"),
  ("c12-params-not-unresolved-on-error", "C12", "piquasso/api/simulator.py", "            finally:\n                # NOTE: The parameters specified by the user are restored even if the\n                # validation or the simulation step raises.\n                if not is_instruction_resolved:\n                    instruction._unresolve_params()", "            except InvalidParameter:\n                raise\n            if not is_instruction_resolved:\n                instruction._unresolve_params()"),
  ("c12-initial-state-not-copied", "C12", "piquasso/api/simulator.py", "            state = initial_state.copy()", "            state = initial_state"),
- ("c12-simulator-keeps-callers-config", "C12", "piquasso/api/simulator.py", "        self.config = config.copy() if config is not None else self._config_class()", "        self.config = config if config is not None else self._config_class()"),
+ # (keeping the caller's Config in the simulator alone is an equivalent mutant for C12: piquasso only ever writes to the
+ #  copies held by states; together with State.__init__ not copying either, PostSelectPhotons / number-state preparations
+ #  of the passive simulator write the caller's Config.cutoff)
+ ("c12-config-never-copied", "C12", ["piquasso/api/simulator.py", "piquasso/api/state.py"], ["        self.config = config.copy() if config is not None else self._config_class()", "        self._config = config.copy() if config is not None else self._config_class()"], ["        self.config = config if config is not None else self._config_class()", "        self._config = config if config is not None else self._config_class()"]),
  ("c12-pfaffian-no-copy", "C12", "piquasso/_simulators/connectors/connector.py", "        return pfaffian(self.fallback_np.array(matrix))", "        return pfaffian(matrix)"),
  ("c12-str-param-expression-again", "C12", "piquasso/api/instruction.py", "        self._params.update(self._original_unresolved_params)", "        self._params.update(self._unresolved_params)"),
  ("c12-shallow-copy", "C12", "piquasso/core/_mixins.py", "        return copy.deepcopy(self)", "        return copy.copy(self)"),
@@ -24,7 +27,7 @@ M = [
  ("c03-shots-round-up", "C03", "piquasso/api/simulator.py", "                    int(branch.frequency * shots) if shots is not None else None", "                    round(branch.frequency * shots + 0.5) if shots is not None else None"),
  ("c03-frequency-not-multiplied", "C03", "piquasso/api/simulator.py", "                subbranch.frequency *= branch.frequency", "                pass"),
  ("c03-outcomes-prepended", "C03", "piquasso/api/simulator.py", "                subbranch.outcome = tuple([*branch.outcome, *subbranch.outcome])", "                subbranch.outcome = tuple([*subbranch.outcome, *branch.outcome])"),
- ("c03-delete-modes-original-index", "C03", "piquasso/api/simulator.py", "            if mode not in Simulator._remap_modes_inverse(active_modes, modes)", "            if mode not in modes"),
+ ("c03-delete-modes-original-index", "C13", "piquasso/api/simulator.py", "            if mode not in Simulator._remap_modes_inverse(active_modes, modes)", "            if mode not in modes"),
  ("c03-get-counts-overwrite-again", "C03", "piquasso/api/result.py", "            ret[branch.outcome] = ret.get(branch.outcome, 0) + int(\n                branch.frequency * shots\n            )", "            ret[branch.outcome] = int(branch.frequency * shots)"),
  ("c03-projection-not-normalised", "C03", "piquasso/_simulators/fock/pure/simulation_steps/__init__.py", "    return np.sqrt(1 / probability_map[sample])", "    return 1.0"),
  # ---- C13
@@ -39,13 +42,19 @@ M = [
 os.makedirs("/verif/mutants", exist_ok=True)
 index = []
 for name, prop, f, old, new in M:
-    path = os.path.join(R, f)
-    s = open(path).read()
-    if s.count(old) != 1:
-        print("SKIP (pattern count %d): %s" % (s.count(old), name)); continue
-    open(path, "w").write(s.replace(old, new))
+    fs, olds, news = (f, old, new) if isinstance(f, list) else ([f], [old], [new])
+    ok = True
+    for f1, o1, n1 in zip(fs, olds, news):
+        path = os.path.join(R, f1)
+        s = open(path).read()
+        if s.count(o1) != 1:
+            print("SKIP (pattern count %d): %s" % (s.count(o1), name)); ok = False; break
+        open(path, "w").write(s.replace(o1, n1))
     d = subprocess.run(["git", "-C", R, "diff"], capture_output=True, text=True).stdout
-    subprocess.run(["git", "-C", R, "checkout", "--", f], check=True)
+    subprocess.run(["git", "-C", R, "checkout", "--", "."], check=True)
+    if not ok:
+        continue
+    f = ",".join(fs)
     open("/verif/mutants/%s.diff" % name, "w").write(d)
     index.append({"name": name, "property": prop, "file": f})
 json.dump(index, open("/verif/mutants/index.json", "w"), indent=1)
